@@ -11,7 +11,7 @@ Behaviour for every fragmentation and the numeric 1.5 factor are not decided. li
 """
 from facts import *
 from disp import agg_sites
-from symex import SymEx, term_str_v, term_has
+from symex import SymEx, term_str_v, term_has, derived_eq_model
 
 HS = {'v3': r'^<v3::server::HandshakeService<St, H> as ntex_service::Service<ntex_io::IoBoxed>>::call::\{closure#0\}$',
       'v5': r'^<v5::server::HandshakeService<St, H> as ntex_service::Service<ntex_io::IoBoxed>>::call::\{closure#0\}$'}
@@ -324,21 +324,24 @@ def max_qos_roundtrip(F, R):
             t = t[1]
         return str(t[1]).split('::')[-1] if isinstance(t, tuple) and t and t[0] == 'constx' else None
     setters = {}
-    for p in SymEx(sb, F).run():
-        if p.end[0] != 'return':
-            continue
-        v = None
-        for t, c in p.conds:
-            if t[0] == 'discr' and c[0] == 'eq':
-                v = c[1]
-        ops = []
-        for nm, a, bi in p.calls:
-            base = nm.split('::')[-1]
-            if base in ('insert', 'remove', 'set', 'toggle') and len(a) >= 2 and cname(a[1]):
-                ops.append((base, cname(a[1])))
-        stores = [1 for nm, a, bi in p.calls if nm.endswith('Cell::<T>::set')]
-        if v is not None:
-            setters[v] = (ops, bool(stores))
+    for i_, var in enumerate(qos['variants']):
+        # the setter evaluated for each value: `match val {..}` and `val == QoS::X` both fold on a known value
+        seqs = set()
+        for p in SymEx(sb, F, arg_values={2: ('agg', 'types::QoS', var['name'], {})}, call_model=derived_eq_model(F)).run():
+            if p.end[0] != 'return':
+                continue
+            ops = []
+            for nm, a, bi in p.calls:
+                base = nm.split('::')[-1]
+                if base in ('insert', 'remove', 'toggle') and len(a) >= 2 and cname(a[1]):
+                    ops.append((base, cname(a[1])))
+                elif base == 'set' and len(a) >= 3 and cname(a[1]):
+                    ops.append((('insert' if a[2][1] else 'remove') if a[2][0] == 'const' else 'set-to-unknown', cname(a[1])))
+            stores = [1 for nm, a, bi in p.calls if nm.endswith('Cell::<T>::set')]
+            seqs.add((tuple(ops), bool(stores)))
+        if len(seqs) == 1:
+            ops, st = seqs.pop()
+            setters[var.get('discr', i_)] = (list(ops), st)
     getters = []
     for p in SymEx(gb, F).run():
         if p.end[0] != 'return' or not p.ret or p.ret[0] != 'agg':
@@ -364,6 +367,8 @@ def max_qos_roundtrip(F, R):
                     s2.discard(f)
                 elif op == 'toggle':
                     s2 ^= {f}
+                else:
+                    s2 = {'?'}  # a flag set to a value that is not known: nothing can be concluded
             got = [ret for conds, ret in getters if all((f in s2) == bool(val) for f, val in conds)]
             if got != [names[v]] and bad is None:
                 bad = 'flags %s, set_max_qos(%s) -> flags %s -> max_qos() = %s' % (sorted(state) or '{}', names[v], sorted(s2) or '{}', got)
